@@ -1259,6 +1259,18 @@ impl GraphDatabase {
                 }
             };
 
+            //room definitions are synchronised separately, their entities cannot be inserted as data
+            match name.as_str() {
+                system_entities::ROOM_ENT
+                | system_entities::AUTHORISATION_ENT
+                | system_entities::ENTITY_RIGHT_ENT
+                | system_entities::USER_AUTH_ENT => {
+                    invalid_nodes.push(node_to_insert.id);
+                    continue;
+                }
+                _ => {}
+            }
+
             let entity = match self.data_model.get_entity(&name) {
                 Ok(e) => e,
                 Err(_) => {
